@@ -43,6 +43,7 @@ F_VECT_NUM = "C15-vectdim-python-number"
 F_MD_STEPENV = "C15-multidiscrete-step-env"
 F_NONCONTIG = "C15-noncontiguous-step-env"
 F_AGENT_ORDER = "C15-agent-order"
+F_BOX0 = "C15-box-rank0"
 
 
 # ----------------------------------------------------------------------------- spaces and observations
@@ -82,8 +83,9 @@ def obs_shape(sd):
 
 
 def net_shape(sd):
+    """the network's input shape (a scalar Box is ONE input feature: networks use spaces.flatdim)"""
     k = sd["kind"]
-    return {"box": lambda: list(sd["shape"]), "disc": lambda: [sd["n"]], "mdisc": lambda: [sum(sd["nvec"])],
+    return {"box": lambda: list(sd["shape"]) or [1], "disc": lambda: [sd["n"]], "mdisc": lambda: [sum(sd["nvec"])],
             "mbin": lambda: [sd["n"]]}[k]()
 
 
@@ -125,7 +127,7 @@ def make_leaf_obs(sd, lead, rows, container, dtype):
     if container == "npscalar":
         return arr.reshape(()).astype(np.dtype(dtype))[()]
     if container == "torch":
-        return torch.from_numpy(np.ascontiguousarray(arr))
+        return torch.from_numpy(arr.copy())
     raise InfraError(container)
 
 
@@ -259,7 +261,10 @@ def build_obs(case, lead=None, rows_sel=None):
             objs.append(make_leaf_obs(m, lead, rr, c, dt))
         if sd["kind"] == "tuple":
             return tuple(objs)
-        d = {key: o for (key, _, _, _), o in zip(members, objs)}
+        pairs = [(key, o) for (key, _, _, _), o in zip(members, objs)]
+        if case.get("dict_reversed"):
+            pairs.reverse()                  # member-by-member must not depend on the dict's key order
+        d = dict(pairs)
         if cont == "tensordict":
             from tensordict import TensorDict
             bs = [lead[0]] if len(lead) >= 1 else []
@@ -377,12 +382,21 @@ def diff_prep(case, impl, model_lines):
     return None
 
 
+def has_rank0_box(case) -> bool:
+    return any(m["kind"] == "box" and m["shape"] == [] for _, m, _, _ in leaf_members(case))
+
+
 # ----------------------------------------------------------------------------- op: vect / batchdim / totensor
+def deciding_member(case):
+    """get_vect_dim looks at the first member of the observation (dict order / tuple position 0)"""
+    members = leaf_members(case)
+    return members[-1][1] if case.get("dict_reversed") and case["space"]["kind"] == "dict" else members[0][1]
+
+
 def run_vect(case):
     from agilerl.utils.algo_utils import get_vect_dim
     sd = case["space"]
-    members = leaf_members(case)
-    _, m0, _, _ = members[0]
+    m0 = deciding_member(case)
     lead = case["lead"]
     shape0 = list(lead) + obs_shape(m0)
     model_ops = [f"obs vect | {' '.join(map(str, shape0))} | {' '.join(map(str, obs_shape(m0)))}"]
@@ -449,6 +463,8 @@ def ma_spaces(kind):
         return [spaces.Discrete(4) for _ in AGENTS]
     if kind == "image":
         return [spaces.Box(0, 255, (1, 3, 3), dtype=np.uint8) for _ in AGENTS]
+    if kind == "mbin":
+        return [spaces.MultiBinary(3) for _ in AGENTS]
     raise InfraError(kind)
 
 
@@ -457,6 +473,8 @@ def ma_space_desc(kind):
         return {"kind": "box", "shape": [3], "low": [-4] * 3, "high": [4] * 3, "sdtype": "float32"}
     if kind == "discrete":
         return {"kind": "disc", "n": 4}
+    if kind == "mbin":
+        return {"kind": "mbin", "n": 3}
     return {"kind": "box", "shape": [1, 3, 3], "low": [0] * 9, "high": [255] * 9, "sdtype": "uint8"}
 
 
@@ -486,6 +504,8 @@ def ma_obs(kind, E, seed, vect=True):
             x = (r.integers(-16, 17, (E, 3)) / 4.0).astype(np.float32)
         elif kind == "discrete":
             x = r.integers(0, 4, (E,)).astype(np.int64)
+        elif kind == "mbin":
+            x = r.integers(0, 2, (E, 3)).astype(np.int8)
         else:
             x = r.integers(0, 256, (E, 1, 3, 3)).astype(np.uint8)
         out[a] = x if vect else x[0]
@@ -511,7 +531,7 @@ def run_ma_prep(case):
     per_agent = {}
     for a in AGENTS:
         rows = ma_rows(kind, obs[a], vect)
-        dt = "float32" if kind == "vector" else ("int64" if kind == "discrete" else "uint8")
+        dt = {"vector": "float32", "discrete": "int64", "mbin": "int8", "image": "uint8"}[kind]
         vals = float32_values(sd, rows, dt)
         model_ops.append(f"obs prep 1 | {space_sections(sd)} | {' '.join(map(str, lead + obs_shape(sd)))} | "
                          + " ".join(frac(v) for v in vals))
@@ -626,9 +646,15 @@ def run_dqn_action(case):
     problems = []
     n = numel(case["lead"])
     obs = build_obs(case)
-    with torch.no_grad():
-        q = ag.actor(ag.preprocess_observation(obs)).detach()
-    act = ag.get_action(obs, epsilon=0.0)
+    try:
+        with torch.no_grad():
+            q = ag.actor(ag.preprocess_observation(obs)).detach()
+        act = ag.get_action(obs, epsilon=0.0)
+        if q.dim() != 2 or q.shape[0] != n:
+            raise ValueError(f"Q-values of shape {list(q.shape)} for {n} observation(s)")
+    except Exception as e:  # noqa: BLE001
+        return [], [], [f"the network rejects a prepared batch of {n} legal observation(s): "
+                        f"{type(e).__name__}: {str(e)[:120]}"], ["dqn-action"]
     top2 = torch.topk(q, 2, dim=-1).values
     clear = ((top2[:, 0] - top2[:, 1]) > 1e-4).tolist()
     if list(act.shape) != [n]:
@@ -672,6 +698,14 @@ def maddpg_eval(ag, obs):
 
 
 def run_ma_action(case):
+    try:
+        return _run_ma_action(case)
+    except Exception as e:  # noqa: BLE001
+        return [], [], [f"get_action raised on legal observations: {type(e).__name__}: {str(e)[:120]}"], \
+            [f"ma-action-{case['algo']}-{case['kind']}"]
+
+
+def _run_ma_action(case):
     """IPPO value estimates (shared policy) / MADDPG actions and centralised-critic values:
     env e of agent a gives the same numbers whatever else shares the call"""
     algo, kind, E, seed = case["algo"], case["kind"], case["E"], case["seed"]
@@ -761,7 +795,7 @@ def classify(case, problems):
     op = case["op"]
     txt = " ".join(problems)
     if op == "vect":
-        m0 = leaf_members(case)[0][1]
+        m0 = deciding_member(case)
         if m0["kind"] == "mbin" and "TypeError" in txt:
             return F_VECT_MB
         if case["container"] in ("number", "dict-number") and "AttributeError" in txt:
@@ -771,8 +805,14 @@ def classify(case, problems):
         return F_MD_STEPENV
     if op == "noncontig":
         return F_NONCONTIG
+    if op == "prep" and has_rank0_box(case) and "result shape" in txt and "rejected" not in txt:
+        return F_BOX0
+    if op == "dqn_action" and has_rank0_box(case):
+        return F_BOX0
     if op == "ma_action" and problems and all(p.startswith("AGENT-ORDER") for p in problems):
         return F_AGENT_ORDER
+    if op == "ma_action" and case["kind"] == "mbin" and "TypeError" in txt:
+        return F_VECT_MB
     return None
 
 
@@ -895,6 +935,8 @@ def gen_prep_case(rng: random.Random, composite_p=0.25, via_dqn=None):
             cont = rng.choice(["tuple-numpy", "tuple-torch"])
         case = {"op": "prep", "space": sd, "norm": norm, "form": form, "lead": lead, "rows": rows,
                 "dtypes": dtypes, "container": cont}
+        if sd["kind"] == "dict" and rng.random() < 0.4:
+            case["dict_reversed"] = True
     else:
         rows = [gen_row(rng, sd, wild) for _ in range(nobs)]
         conts = ["numpy", "numpy", "torch"]
@@ -933,42 +975,24 @@ def gen_cases(chk: Check):
     rng = chk.rng
     quick = chk.tier == "quick"
     cases = []
-    # fixed probes for the analysed findings and the corners the property names
-    mb = {"kind": "mbin", "n": 3}
-    for lead in ([2], [], [1]):
-        cases.append({"op": "vect", "space": mb, "lead": lead, "rows": [[1, 0, 1]] * numel(lead),
-                      "dtype": "int8", "container": "numpy", "form": "probe", "norm": True})
-    cases.append({"op": "vect", "space": {"kind": "disc", "n": 5}, "lead": [], "rows": [[3]], "dtype": "int64",
-                  "container": "number", "form": "probe", "norm": True})
+    # fixed probes beside corpus/C15 (which holds one minimal input per analysed finding)
     cases.append({"op": "vect", "space": {"kind": "box", "shape": [], "low": [0], "high": [1], "sdtype": "float32"},
                   "lead": [], "rows": [[0.5]], "dtype": "float", "container": "number", "form": "probe", "norm": True})
-    md = {"kind": "mdisc", "nvec": [2, 3]}
-    cases.append({"op": "prep", "space": md, "norm": True, "form": "stepenv", "lead": [2, 3],
-                  "rows": [[1, 2], [0, 0], [1, 1], [1, 2], [0, 0], [1, 1]], "dtype": "int64", "container": "numpy"})
-    cases.append({"op": "prep", "space": md, "norm": True, "form": "stepenv", "lead": [5, 1],
-                  "rows": [[0, 1]] * 5, "dtype": "int64", "container": "torch"})
-    cases.append({"op": "noncontig", "space": {"kind": "box", "shape": [2], "low": [0, 0], "high": [1, 1],
-                                                "sdtype": "float32"}, "lead": [2, 3]})
     cases.append({"op": "noncontig", "space": {"kind": "mbin", "n": 2}, "lead": [3, 2]})
-    cases.append({"op": "prep", "space": {"kind": "disc", "n": 1}, "norm": True, "form": "batch-of-one", "lead": [1],
-                  "rows": [[0]], "dtype": "int64", "container": "numpy"})
-    img = {"kind": "box", "shape": [1, 2, 2], "low": [0] * 4, "high": [255] * 4, "sdtype": "uint8"}
-    cases.append({"op": "prep", "space": img, "norm": True, "form": "batch-of-one", "lead": [1],
-                  "rows": [[0, 60, 120, 255]], "dtype": "uint8", "container": "numpy"})
     cases.append({"op": "prep", "space": {"kind": "box", "shape": [], "low": [0], "high": [1], "sdtype": "float32"},
                   "norm": True, "form": "unbatched", "lead": [], "rows": [[0.5]], "dtype": "float",
                   "container": "number"})
     # function-level stream
-    for _ in range(260 if quick else 4000):
+    for _ in range(900 if quick else 10000):
         cases.append(gen_prep_case(rng))
     # the same through RLAlgorithm.preprocess_observation + greedy-action oracle
     pool = DQN_SPACES + ([] if quick else DQN_SPACES_THOROUGH)
     for sd, norm in pool:
-        for _ in range(4 if quick else 25):
+        for _ in range(6 if quick else 30):
             c = gen_prep_case(rng, via_dqn=sd)
             c["norm"] = norm
             cases.append(c)
-        for _ in range(3 if quick else 20):
+        for _ in range(4 if quick else 25):
             c = gen_prep_case(rng, via_dqn=sd)
             while c["form"] not in ("batched", "batch-of-one") or \
                     not all(row_valid(m, float32_values(m, [r], dt)) for _, m, rows, dt in leaf_members(c) for r in rows):
@@ -997,12 +1021,14 @@ def gen_cases(chk: Check):
     # multi-agent entry points
     kinds = ["vector", "discrete", "image"]
     for algo in ("maddpg", "ippo"):
-        for kind in (kinds if not quick else (["vector", "image"] if algo == "maddpg" else ["vector", "discrete"])):
-            for _ in range(3 if quick else 12):
+        # (MADDPG's centralised critic cannot be built for MultiBinary observations: concatenate_spaces)
+        for kind in ((kinds + (["mbin"] if algo == "ippo" else [])) if not quick else
+                     (["vector", "image"] if algo == "maddpg" else ["vector", "discrete", "mbin"])):
+            for _ in range(4 if quick else 15):
                 E = rng.choice([1, 2, 3, 4])
                 cases.append({"op": "ma_prep", "algo": algo, "kind": kind, "E": E, "vect": rng.random() < 0.75,
                               "seed": rng.randrange(1 << 20)})
-            for _ in range(2 if quick else 10):
+            for _ in range(3 if quick else 12):
                 E = rng.choice([1, 2, 3, 4])
                 order = list(AGENTS)
                 while order == AGENTS:
@@ -1020,6 +1046,22 @@ def gen_cases(chk: Check):
 
 
 # ----------------------------------------------------------------------------- evaluation
+def drv(chk: Check, lines):
+    """the driver; waits out a concurrent `lake build driver` that has the executable unlinked for a moment"""
+    import time
+    for attempt in range(30):
+        try:
+            return chk.driver.run(lines)
+        except OSError as e:                      # executable vanished / being written between check and spawn
+            if attempt == 29:
+                raise InfraError(f"driver not runnable: {e}")
+            time.sleep(2)
+        except InfraError as e:
+            if "missing" not in str(e) or attempt == 29:
+                raise
+            time.sleep(2)
+
+
 def evaluate(chk: Check, case):
     """(diff description | None, oracle problems, tags, impl, model lines)"""
     runner = RUNNERS.get(case["op"])
@@ -1029,12 +1071,17 @@ def evaluate(chk: Check, case):
     np.random.seed(case.get("seed", 0) % (1 << 31))
     random.seed(case.get("seed", 0))
     impl, model_ops, problems, tags = runner(case)
-    model_out = chk.driver.run(["reset"] + model_ops)[1:] if model_ops else []
+    model_out = drv(chk, ["reset"] + model_ops)[1:] if model_ops else []
     chk.corr["model_lines"] += len(model_ops)
     if any(o == "bad-op" for o in model_out):
         raise InfraError(f"driver answered bad-op for {model_ops[:1]}")
     if case["op"] == "prep":
         diff = diff_prep(case, impl, model_out)
+        if diff is not None:
+            legacy = drv(chk, ["reset"] + [ln.replace("obs prep ", "obs preplegacy ", 1) for ln in model_ops])[1:]
+            if diff_prep(case, impl, legacy) is None:
+                diff += " (the implementation equals the model's LEGACY variant: scalar Box without feature " \
+                        "dimension / MultiDiscrete (step, env) rejected)"
     elif case["op"] == "ma_prep":
         diff = diff_ma_prep(case, impl, model_out)
     elif case["op"] == "critic":
